@@ -75,15 +75,24 @@ def one_trace(rng, tid, prop, sweep=None):
             row = tuple(rng.choice([0, rng.randint(0, hi), rng.randint(0, 70)]) for _ in range(nn))
             if row not in rows:
                 rows.append(row)
+        lexi = nn >= 2 and rng.random() < 0.25
+        if lexi:
+            # seed C20g: the largest exponent sits in a later name of a row that is not the lexicographically last one
+            e = rng.choice([rng.randint(69, 196), rng.randint(197, 400), 256])
+            rows = [tuple([rng.randint(1, 5)] + [0] * (nn - 1)), tuple([0] * (nn - 1) + [e])]
+            if rng.random() < 0.5:
+                rows.append(tuple([0] * nn))
         big = max(max(r) for r in rows)
         p = poly2(rec, rows, names, [rng.choice([1, -1, 2, 3]) for _ in rows], big)
         if not p:
             return rec.to_json()
         rows2 = [tuple(rng.choice([0, rng.randint(0, hi)]) for _ in range(nn))]
+        if lexi:
+            rows2 = [tuple([0] * (nn - 1) + [rng.randint(0, 8)])]
         q = poly2(rec, rows2, names, [rng.choice([1, -2])], max(rows2[0]))
-        for _ in range(rng.randint(3, 6)):
+        for step in range(rng.randint(3, 6)):
             c = rng.random()
-            if c < 0.25 and q:
+            if (c < 0.25 or (lexi and step == 0)) and q:
                 rec.do("arith", [p[0], q[0]], keep=False, op="mul", spelling="operator",
                        bigexp=max(a + b for r in rows for a, b in zip(r, rows2[0])))
             elif c < 0.35:
